@@ -920,8 +920,12 @@ func (g *Gen) fracBiased() float64 {
 func (g *Gen) Plan(seed uint64) *Plan {
 	p := &Plan{Property: g.Cfg.Property, Seed: seed, NAccts: g.Cfg.NAccts, Nodes: g.Cfg.Nodes}
 	p.Steps = append(p.Steps, Step{Kind: "deploy", Name: "World", Source: WorldSrc, Signers: []uint64{1}})
+	if g.Cfg.Families["contract"] > 0 {
+		p.Steps = append(p.Steps, Step{Kind: "deploy", Name: "VI", Source: viSrc, Signers: []uint64{1}})
+	}
 	p.Steps = append(p.Steps, g.prelude()...)
 	g.M = NewModel(g.Cfg.NAccts)
+	g.M.Ctr.VI = g.Cfg.Families["contract"] > 0
 	nPre := len(p.Steps)
 	for len(p.Steps) < g.Cfg.Steps+nPre {
 		switch {
